@@ -6,6 +6,7 @@ import (
 	"fmt"
 	"math"
 	"sync"
+	"sync/atomic"
 	"testing"
 	"testing/synctest"
 	"time"
@@ -17,6 +18,7 @@ func init() {
 	streams["cache_f6"] = streamCacheF6
 	streams["cache_f9"] = streamCacheF9
 	streams["cache_f12"] = streamCacheF12
+	streams["cache_f13"] = streamCacheF13
 }
 
 // F12 (C04): SetWithTTL and Del call OnExit(prev) after the store update, outside every lock.
@@ -145,3 +147,98 @@ func streamCacheF9(r *Run) {
 }
 
 func init() { streams["alloc_f10"] = streamAllocF10 }
+
+// F13 (C08, "every call returns in bounded time"): Clear drains setBuf with a non-blocking loop
+// that ends only when it finds the channel empty.  Writers are not held off while it drains, so
+// as long as Sets keep arriving — here: one new Set per drained item, issued while Clear is inside
+// the user's OnEvict callback for the previous item — Clear does not return: the number of its
+// drain iterations is bounded by nothing that was true when it was called.  (Lean:
+// `C08Fair.c08_clear_livelock_counterexample`, a fair infinite execution in which Clear never
+// returns; every other call returns under the same fairness, `c08_non_clear_calls_return`.)
+// The witness runs `rounds` such iterations, then stops writing; Clear returns at once.
+func streamCacheF13(r *Run) {
+	r.Cases++
+	rounds := 2000 * r.Scale
+	var mu sync.Mutex
+	armed := true
+	atDone := make(chan struct{})
+	goOn := make(chan struct{})
+	ristretto.VerifPointFn = func(id int) {
+		mu.Lock()
+		hit := id == 14 && armed // vpClearDone: the applier has stopped, the drain has not begun
+		if hit {
+			armed = false
+		}
+		mu.Unlock()
+		if hit {
+			close(atDone)
+			<-goOn
+		}
+	}
+	defer func() { ristretto.VerifPointFn = nil }()
+	inEvict := make(chan uint64)
+	resume := make(chan struct{})
+	var draining atomic.Bool
+	cache, err := ristretto.NewCache(&ristretto.Config[uint64, uint64]{
+		NumCounters: 100, MaxCost: 1 << 30, BufferItems: 64, IgnoreInternalCost: true,
+		OnEvict: func(it *ristretto.Item[uint64]) {
+			if draining.Load() {
+				inEvict <- it.Value
+				<-resume
+			}
+		},
+	})
+	if err != nil {
+		r.Fail("*", "NewCache: "+err.Error(), "")
+		return
+	}
+	cleared := make(chan struct{})
+	go func() {
+		cache.Clear()
+		close(cleared)
+	}()
+	<-atDone
+	// the applier is stopped; this Set stays in setBuf for the drain to find
+	accepted := 0
+	if cache.Set(1, 1, 1) {
+		accepted++
+	}
+	draining.Store(true)
+	close(goOn)
+	iterations := 0
+	returnedEarly := false
+	for k := uint64(2); int(k) <= rounds+1; k++ {
+		select {
+		case <-inEvict: // Clear is inside OnEvict for the item it just drained
+			iterations++
+			if cache.Set(k, k, 1) { // one more write arrives while Clear is busy
+				accepted++
+			}
+			resume <- struct{}{}
+		case <-cleared:
+			returnedEarly = true
+		}
+		if returnedEarly {
+			break
+		}
+	}
+	// stop writing: the next drain iteration is the last one
+	stillRunning := !returnedEarly
+	if stillRunning {
+		select {
+		case <-inEvict:
+			iterations++
+			draining.Store(false)
+			resume <- struct{}{}
+		case <-cleared:
+		}
+		<-cleared
+	}
+	draining.Store(false)
+	cache.Close()
+	r.Emit("f13 rounds=%d drain_iterations=%d accepted=%d clear_still_running_after_rounds=%v", rounds, iterations, accepted, stillRunning)
+	if stillRunning && iterations >= rounds {
+		r.FailSig("C08", "F13", fmt.Sprintf("Clear had not returned after %d drain iterations, each of which found a Set issued after Clear had begun (it returned as soon as the writes stopped): its running time is not bounded while other goroutines keep writing", iterations),
+			"goroutine: Clear() held at vpClearDone; Set(1); release; then for every item Clear drains (inside OnEvict): Set(next key); repeat")
+	}
+}
